@@ -22,7 +22,7 @@ RULE = (
     "instance; non-trivial = tree with >= 3 nodes; distinct = distinct tree fingerprints"
 )
 ASSUMPTIONS = ["all nodes of a tree are registered (handles are held) and no object occurs twice, as the statement requires"]
-MUST_SEE = ["twin_pairs_in_tree", "foreign_twins", "non_ancestor_pairs", "index_ge_10", "root_relative_valueerror", "keyerrors"]
+MUST_SEE = ["twin_pairs_in_tree", "foreign_twins", "non_ancestor_pairs", "index_ge_10", "root_relative_valueerror", "keyerrors", "subtree_trees", "exact_tuple_hits"]
 CONFIG = {
     "quick": {"shards": 16, "trees": 60, "max_nodes": 28, "watchdog_s": 300},
     "thorough": {"shards": 32, "trees": 600, "max_nodes": 45, "watchdog_s": 3000},
@@ -97,6 +97,14 @@ def run_shard(ctx):
             ctx.fp(G.shape_fingerprint(U, s))
         if case < 1 and ctx.shard == 0:
             ctx.sample({"tree": spec_json(s), "nodes": n})
+        if rng.random() < 0.5:
+            # query a sub-tree Tree first (shared node objects, other root)
+            cands = [k for k, p in enumerate(pos) if p.parent is not None]
+            if cands:
+                pre_t = Tree(nodes[rng.choice(cands)])
+                for x in nodes:
+                    if pre_t.is_in_tree(x):
+                        list(pre_t.get_ancestors(x)), pre_t.get_depth(x)
         t = Tree(root) if rng.random() < 0.5 else root.to_tree()
         ctx.count("trees")
         # twins inside the tree (== but different object)
@@ -152,10 +160,15 @@ def run_shard(ctx):
                     got = t.get_first_ancestor_of_type(nd, C, exact_type=exact)
                     if got is not exp:
                         bad("first_ancestor", "get_first_ancestor_of_type wrong", node=k, cls=cn, exact=exact)
-            C2 = (U.cls[f"{P}Bin"], U.cls[f"{P}List"])
+            C2 = (U.cls[f"{P}Bin"], U.cls[f"{P}List"], U.cls[f"{P}Un"], U.cls[f"{P}Call"])
             exp = next((a for a in exp_anc if isinstance(a, C2)), None)
             if t.get_first_ancestor_of_type(nd, C2) is not exp:
                 bad("first_ancestor", "get_first_ancestor_of_type (tuple of classes) wrong", node=k)
+            exp = next((a for a in exp_anc if type(a) in C2), None)
+            if exp is not None:
+                ctx.count("exact_tuple_hits")
+            if t.get_first_ancestor_of_type(nd, C2, exact_type=True) is not exp:
+                bad("first_ancestor", "get_first_ancestor_of_type (tuple of classes, exact_type=True) wrong", node=k)
             # xpath
             xp = t.get_xpath(nd)
             try:
@@ -195,6 +208,40 @@ def run_shard(ctx):
                     ctx.count("root_relative_valueerror")
             if r != exp_r:
                 bad("relative_depth", "relative get_depth wrong", node=i, relative_to=j, got=r, exp=exp_r)
+        # a second Tree over a sub-tree of the same objects (queried before or after the whole tree):
+        # its answers are relative to its own root and must not be influenced by the other Tree
+        inner = [k for k, p in enumerate(pos) if p.parent is not None and any(q.parent is p for q in pos)]
+        if inner:
+            k0 = rng.choice(inner)
+            sub_root = nodes[k0]
+            t2 = Tree(sub_root)
+            ctx.count("subtree_trees")
+            members = [k for k, p in enumerate(pos) if k == k0 or any(q is pos[k0] for q in chain[id(p)])]
+            for k in members:
+                nd = nodes[k]
+                exp_chain = []
+                for q in chain[id(pos[k])]:
+                    exp_chain.append(obj[id(q)])
+                    if q is pos[k0]:
+                        break
+                if k == k0:
+                    exp_chain = []
+                ctx.evaluations += 1
+                if [id(a) for a in t2.get_ancestors(nd)] != [id(a) for a in exp_chain] or t2.get_depth(nd) != len(exp_chain):
+                    bad("subtree-tree", "a Tree over a sub-tree answers with another tree's ancestor chain", node=k, subtree_root=k0)
+                    break
+                if [id(a) for a in t.get_ancestors(nd)] != [id(obj[id(q)]) for q in chain[id(pos[k])]]:
+                    bad("subtree-tree", "the whole tree's ancestor chain changed after a sub-tree Tree was queried", node=k, subtree_root=k0)
+                    break
+            outsider = next((nodes[k] for k in range(n) if k not in members), None)
+            if outsider is not None:
+                if t2.is_in_tree(outsider):
+                    bad("subtree-tree", "a node outside the sub-tree is reported in the sub-tree's Tree")
+                try:
+                    list(t2.get_ancestors(outsider))
+                    bad("subtree-tree", "get_ancestors of a node outside the sub-tree's Tree did not raise KeyError")
+                except KeyError:
+                    pass
         # foreign nodes: twins of members (registered, == to the member), other trees, fresh nodes
         foreign = []
         for k in rng.sample(range(n), min(3, n)):
